@@ -403,48 +403,16 @@ def r4_block_header(chk, put, mapb, get):
             order.append("header" if any(t.startswith("call:") and t.endswith("pack") for t in p) else norm(w.args[0]))
     chk.decide(order == ["header", "key", "value"], "C02.R4", f"{put.key}:write-order", put.where(), f"writes {order}",
                f"put writes {order}; the layout is header | key | value")
-    # map_blocks: unpack order and record construction
-    asg = assignments(mapb.node)
-    un = [s for s in ast.walk(mapb.node) if isinstance(s, ast.Assign) and isinstance(s.targets[0], ast.Tuple)
-          and len(s.targets[0].elts) == 2]
-    hdr = [s for s in un if "_BLOCK_HEADER" in " ".join(provenance(mapb.node, s.value, mapb.params(), asg)) or
-           any("_BLOCK_HEADER" in norm(v) for n_ in names_in(s.value) for v in [x for x in asg.get(n_, []) if isinstance(x, ast.AST)])]
-    chk.require(len(hdr) == 1, "map_blocks: expected one 2-tuple unpack of the block header")
-    k0, k1 = [norm(t) for t in hdr[0].targets[0].elts]
-    recs = calls_named(mapb.node, {"UKVRecord"})
-    chk.require(len(recs) == 1, "map_blocks: expected one UKVRecord construction")
-    ra = [norm(x) for x in recs[0].args]
-    chk.decide(ra == ["pos", k0, k1], "C02.R4", f"{mapb.key}:record", mapb.where(recs[0]), f"UKVRecord{tuple(ra)} from header ({k0}, {k1})",
-               f"map_blocks builds UKVRecord({', '.join(ra)}) from a header unpacked as ({k0}, {k1})")
-    kr = [s for s in ast.walk(mapb.node) if isinstance(s, ast.Assign) and norm(s.targets[0]) == "key"
-          and has_call(s.value, {"self._stream.read"})]
-    chk.require(len(kr) == 1, "map_blocks: expected one key read")
-    ka = norm(calls_named(kr[0].value, {"self._stream.read"})[0].args[0])
-    chk.decide(ka == k0, "C02.R4", f"{mapb.key}:key-read", mapb.where(kr[0]), f"reads {ka} bytes of key",
-               f"map_blocks reads {ka} bytes as the key; the first header field {k0} is the key length")
-    loops_ = [l for l in walk_no_nested(mapb.node) if isinstance(l, ast.While)]
-    sk = [c for c in calls_named(mapb.node, {"self._stream.seek"}) if len(c.args) == 2 and norm(c.args[1]) == "1"]
-    if len(sk) == 1:
-        chk.decide(norm(sk[0].args[0]) == k1, "C02.R4", f"{mapb.key}:value-skip", mapb.where(sk[0]), f"skips {k1} bytes",
-                   f"map_blocks skips {norm(sk[0].args[0])} bytes; the value length is {k1}")
-    else:
-        # absolute form: inside the scan loop, `pos = record.end` followed by seek(pos) (or seek(record.end))
-        ab = [c for l in loops_ for c in calls_named(l, {"self._stream.seek"}) if len(c.args) == 1]
-        chk.require(len(ab) == 1, "map_blocks: expected one seek over the value (relative, or absolute to the end of the record)")
-        from ..canon import Env
+    # map_blocks: record construction, key read, advance and admission, decided on affine offsets (sa/affine.py)
+    from .ukvscan import scan_facts
 
-        tgt = norm(Env(mapb.node).expand(ab[0].args[0], keep={"record"}, at=ab[0]))
-        chk.decide(tgt in ("record.end", "record.pos + record.size"), "C02.R4", f"{mapb.key}:value-skip", mapb.where(ab[0]), f"continues at {tgt}",
-                   f"after a record the scan continues at `{tgt}`, not at the end of that record")
-    # a scan loop that is bounded by arithmetic must admit a block whose header ends exactly at the end of the file
-    for l in loops_:
-        t = l.test
-        if isinstance(t, ast.Compare) and len(t.ops) == 1 and "_BLOCK_HEADER.size" in norm(t):
-            txt = norm(t)
-            okb = txt in ("pos + _BLOCK_HEADER.size <= size", "_BLOCK_HEADER.size + pos <= size", "size >= pos + _BLOCK_HEADER.size", "size - pos >= _BLOCK_HEADER.size")
-            chk.decide(okb, "C02.R4", f"{mapb.key}:scan-bound", mapb.where(l), f"while {txt}",
-                       f"the scan loop runs `while {txt}`: a block whose header ends exactly at the end of the file (empty key and empty value) is never listed - "
-                       "its key is missing from the table, a duplicate put is accepted, an open in mode 'a' truncates it away")
+    facts = scan_facts(chk.prog, mapb, len(fields))
+    f1, f2 = facts["record-offset"], facts["record-lengths"]
+    chk.decide(f1.ok and f2.ok, "C02.R4", f"{mapb.key}:record", mapb.where(f1.node), f"{f1.good}; {f2.good}",
+               "map_blocks: " + "; ".join(f.bad for f in (f1, f2) if not f.ok))
+    for fk, ok_key in (("key-read", "key-read"), ("advance", "value-skip"), ("fit", "scan-admits-exactly-the-blocks-that-fit")):
+        f = facts[fk]
+        chk.decide(f.ok, "C02.R4", f"{mapb.key}:{ok_key}", mapb.where(f.node), f.good, "map_blocks: " + f.bad)
     # UKVRecord geometry
     want = {"size": ["_BLOCK_HEADER.size", "self.key_len", "self.record_len"],
             "pos_k": ["_BLOCK_HEADER.size", "self.pos"],
